@@ -126,13 +126,38 @@ pub fn apply_module(base: &[u8], plan: &[Inj]) -> Result<(Vec<Applied>, Result<V
     Ok((status, encs.remove(0), logs))
 }
 
-/// Same, but `encode()` is called up to `n` times on the same module (C05); stops at the first panic.
+/// An edit of the import side of the function index space made before the plan is applied (C22: special-mode
+/// injections must survive re-indexing). Local functions keep their relative order under both.
+#[derive(Clone, Copy, Debug, PartialEq, Eq)]
+pub enum PreEdit {
+    /// delete_func on an imported function that nothing references
+    DeleteImportFunc(u32),
+    /// add_import_func with an existing function type
+    AddImportFunc(u32),
+}
+
 pub fn apply_module_multi(base: &[u8], plan: &[Inj], n: usize) -> Result<(Vec<Applied>, Vec<Result<Vec<u8>, PanicInfo>>, Vec<String>), String> {
+    apply_module_pre(base, &[], plan, n)
+}
+
+/// Same, but `encode()` is called up to `n` times on the same module (C05); stops at the first panic.
+pub fn apply_module_pre(base: &[u8], pre: &[PreEdit], plan: &[Inj], n: usize) -> Result<(Vec<Applied>, Vec<Result<Vec<u8>, PanicInfo>>, Vec<String>), String> {
     let mut m = match catch(|| wirm::Module::parse(base, true)) {
         Ok(Ok(m)) => m,
         Ok(Err(e)) => return Err(format!("parse: {}", e)),
         Err(p) => return Err(format!("parse panic: {}", p.sig())),
     };
+    for (k, e) in pre.iter().enumerate() {
+        let r = catch(|| match e {
+            PreEdit::DeleteImportFunc(f) => m.delete_func(FunctionID(*f)),
+            PreEdit::AddImportFunc(t) => {
+                m.add_import_func("pre".to_string(), format!("added{}", k), wirm::ir::id::TypeID(*t));
+            }
+        });
+        if let Err(p) = r {
+            return Err(format!("pre-edit panic (other property): {:?}: {}", e, p.sig()));
+        }
+    }
     let mut status = vec![];
     for inj in plan {
         let ops = probe_ops_for(inj);
@@ -625,7 +650,7 @@ impl Prop for Lower {
                       (*_at + inject, inject_at) and ComponentIterator (module wrapped in a component). Oracle: out = concat(before ++ (alt | op) ++ after), \
                       final end: before ++ end; every other function unchanged. Non-trivial = >= 2 modes on one site or >= 5 sites."
                 .into(),
-            "C21" => "generated bodies with nested constructs + non-overlapping block-alternate plans (replace / empty) on block / loop / if / else whose block \
+            "C21" => "generated bodies with nested constructs + block-alternate plans (replace / empty; regions disjoint or nested inside one another - the outer replacement wins) on block / loop / if / else whose block \
                       type is empty, combined with plain before/after injections outside the replaced regions; output compared with the region-removal \
                       spec and validated. Non-trivial = >= 1 replaced construct that contains a nested construct or an else."
                 .into(),
@@ -660,7 +685,7 @@ impl Prop for Lower {
     }
     fn run_case(&self, seed: u64, idx: u64, want_sample: bool) -> CaseOut {
         let mut rng = Rng::for_case(seed, self.id, idx);
-        let (g, plan, via_component) = match gen_plan(self.id, &mut rng) {
+        let (g, plan, via_component, pre) = match gen_plan(self.id, &mut rng) {
             Ok(x) => x,
             Err(e) => {
                 let mut out = CaseOut::default();
@@ -669,12 +694,12 @@ impl Prop for Lower {
             }
         };
         let profile = g.profile;
-        self.evaluate(&g.bytes, profile, plan, via_component, want_sample, &mut rng)
+        self.evaluate(&g.bytes, profile, plan, via_component, &pre, want_sample, &mut rng)
     }
 }
 
 /// Base module + injection plan of one C15 / C21 / C22 case (also the scenario pool of C04 / C05).
-pub fn gen_plan(id: &str, rng: &mut Rng) -> Result<(gen::GenModule, Vec<Inj>, bool), String> {
+pub fn gen_plan(id: &str, rng: &mut Rng) -> Result<(gen::GenModule, Vec<Inj>, bool, Vec<PreEdit>), String> {
     let g = pick_base(rng, id != "C15").map_err(|_| "generator reject".to_string())?;
     let raw_in = sym::decode(&g.bytes).map_err(|e| format!("decode: {}", e))?;
     let nimp = raw_in.n_imp_funcs;
@@ -732,7 +757,13 @@ pub fn gen_plan(id: &str, rng: &mut Rng) -> Result<(gen::GenModule, Vec<Inj>, bo
                         (c, *st.end_of.get(&c).unwrap_or(&c))
                     };
                     // also keep clear of the enclosing construct's keywords when an enclosing one is replaced
-                    if taken.iter().any(|(a, b)| !(hi < *a || lo > *b)) {
+                    // disjoint regions, or (1 in 2) a region nested inside / around an already chosen one: the outer replacement wins
+                    let nested_ok = rng.chance(1, 2);
+                    if taken.iter().any(|(a, b)| {
+                        let disjoint = hi < *a || lo > *b;
+                        let nested = (lo > *a && hi <= *b) || (*a > lo && *b <= hi);
+                        !(disjoint || (nested && nested_ok))
+                    }) {
                         continue;
                     }
                     // replacing an `if` or its else while the other is replaced = overlap
@@ -808,7 +839,55 @@ pub fn gen_plan(id: &str, rng: &mut Rng) -> Result<(gen::GenModule, Vec<Inj>, bo
     if plan.is_empty() {
         return Err("empty plan (no applicable site)".into());
     }
-    Ok((g, plan, via_component))
+    // C22: in 1 of 3 module-level cases the import side of the function index space is edited first
+    let mut pre = vec![];
+    let mut via_component = via_component;
+    if id == "C22" && rng.chance(1, 3) {
+        via_component = false;
+        let mut referenced: std::collections::BTreeSet<u32> = std::collections::BTreeSet::new();
+        for f in &raw_in.funcs {
+            for o in &f.ops {
+                referenced.extend(o.refs.iter().filter(|(k, _)| *k == sym::RefKind::Func).map(|(_, i)| *i));
+            }
+        }
+        referenced.extend(raw_in.exports.iter().filter(|(_, k, _)| k == "func").map(|(_, _, i)| *i));
+        referenced.extend(raw_in.start.iter().cloned());
+        for e in &raw_in.elems {
+            match &e.items {
+                sym::RawElemItems::Funcs(v) => referenced.extend(v.iter().cloned()),
+                sym::RawElemItems::Exprs(_, xs) => {
+                    for x in xs {
+                        for o in x {
+                            referenced.extend(o.refs.iter().filter(|(k, _)| *k == sym::RefKind::Func).map(|(_, i)| *i));
+                        }
+                    }
+                }
+            }
+        }
+        for (_, init) in &raw_in.globals {
+            for o in init {
+                referenced.extend(o.refs.iter().filter(|(k, _)| *k == sym::RefKind::Func).map(|(_, i)| *i));
+            }
+        }
+        for (_, init) in &raw_in.tables {
+            for o in init.iter().flatten() {
+                referenced.extend(o.refs.iter().filter(|(k, _)| *k == sym::RefKind::Func).map(|(_, i)| *i));
+            }
+        }
+        let deletable: Vec<u32> = (0..nimp).filter(|f| !referenced.contains(f)).collect();
+        let ftypes: Vec<u32> = g.types.iter().enumerate().filter(|(_, t)| matches!(t, gen::TyInfo::Func(..))).map(|(i, _)| i as u32).collect();
+        for _ in 0..rng.range(1, 2) {
+            if !deletable.is_empty() && rng.bool() {
+                let d = *rng.pick(&deletable);
+                if !pre.contains(&PreEdit::DeleteImportFunc(d)) {
+                    pre.push(PreEdit::DeleteImportFunc(d));
+                }
+            } else if !ftypes.is_empty() {
+                pre.push(PreEdit::AddImportFunc(*rng.pick(&ftypes)));
+            }
+        }
+    }
+    Ok((g, plan, via_component, pre))
 }
 
 fn mode_of(s: &str) -> Option<Mode> {
@@ -873,10 +952,22 @@ impl Lower {
         };
         let plan = plan_from_json(&w["plan"])?;
         let mut rng = Rng::new(1, 1);
-        Some(self.evaluate(&bytes, "witness", plan, w["via_component"].as_bool().unwrap_or(false), false, &mut rng))
+        let pre: Vec<PreEdit> = w["pre"]
+            .as_array()
+            .map(|a| {
+                a.iter()
+                    .filter_map(|e| match (e[0].as_str(), e[1].as_u64()) {
+                        (Some("del"), Some(x)) => Some(PreEdit::DeleteImportFunc(x as u32)),
+                        (Some("add"), Some(x)) => Some(PreEdit::AddImportFunc(x as u32)),
+                        _ => None,
+                    })
+                    .collect()
+            })
+            .unwrap_or_default();
+        Some(self.evaluate(&bytes, "witness", plan, w["via_component"].as_bool().unwrap_or(false), &pre, false, &mut rng))
     }
 
-    fn evaluate(&self, base: &[u8], profile: &str, plan: Vec<Inj>, via_component: bool, want_sample: bool, rng: &mut Rng) -> CaseOut {
+    fn evaluate(&self, base: &[u8], profile: &str, plan: Vec<Inj>, via_component: bool, pre: &[PreEdit], want_sample: bool, rng: &mut Rng) -> CaseOut {
         let mut out = CaseOut::default();
         struct G<'x> {
             bytes: &'x [u8],
@@ -902,7 +993,14 @@ impl Lower {
             out.ob(format!("path:{:?}{}", i.path, if via_component { "@component" } else { "@module" }));
             out.ob(format!("site-op:{:?}:{}", i.mode, raw_in.funcs[(i.func - nimp) as usize].ops[i.at].name));
         }
-        let applied = if via_component { apply_component(g.bytes, &plan, &mut rng) } else { apply_module(g.bytes, &plan) };
+        for e in pre {
+            out.ob(format!("pre-edit:{}", match e { PreEdit::DeleteImportFunc(_) => "delete-import-func", PreEdit::AddImportFunc(_) => "add-import-func" }));
+        }
+        let applied = if via_component {
+            apply_component(g.bytes, &plan, &mut rng)
+        } else {
+            apply_module_pre(g.bytes, pre, &plan, 1).map(|(s, mut e, l)| (s, e.remove(0), l))
+        };
         let plan_json: Vec<String> = plan.iter().map(|i| format!("{:?}", i)).collect();
         let base_wat = || crate::props::c01::text_of(g.bytes);
         let (status, enc, logs) = match applied {
@@ -1073,7 +1171,8 @@ impl Lower {
             if let Some(m) = v.detail.as_object_mut() {
                 m.insert(
                     "explicit_witness".into(),
-                    json!({"base_hex": g.bytes.iter().map(|b| format!("{:02x}", b)).collect::<String>(), "plan": plan_to_json(&plan), "via_component": via_component}),
+                    json!({"base_hex": g.bytes.iter().map(|b| format!("{:02x}", b)).collect::<String>(), "plan": plan_to_json(&plan), "via_component": via_component,
+                           "pre": pre.iter().map(|e| match e { PreEdit::DeleteImportFunc(x) => json!(["del", x]), PreEdit::AddImportFunc(x) => json!(["add", x]) }).collect::<Vec<_>>()}),
                 );
             }
         }
